@@ -64,7 +64,8 @@ def alpha_disjoint(t, env, seen=()):
 
 def set_default_zero(t, env, seen=()):
     """does t contain a SET with a DEFAULT 0 member of INTEGER/ENUMERATED type?  (stored inline by the native
-    representation, so always emitted by SET_encode_xer; a NULL pointer in the wide one, skipped: F76)"""
+    representation, so always emitted by SET_encode_xer in BASIC-XER; a NULL pointer in the wide one, skipped: F76.
+    CANONICAL-XER skips a member that holds its default value in both representations - F56, repaired)"""
     k = t["k"]
     if k == "REF":
         return False if t["name"] in seen else set_default_zero(env[t["name"]], env, seen + (t["name"],))
@@ -103,7 +104,7 @@ def known_region(st, env, tn, syn, opts):
     if syn in ("der", "descr") and WIDE in opts and explicit_ulong_member(env[tn], env, env.get("__tagdefault__")):
         st.skipped["F77"] += 1
         return True
-    if syn in ("xer", "cxer") and WIDE in opts and set_default_zero(env[tn], env):
+    if syn == "xer" and WIDE in opts and set_default_zero(env[tn], env):
         st.skipped["F76"] += 1
         return True
     return False
@@ -510,8 +511,8 @@ WITNESSES = {
     "F75": {"module": 'W DEFINITIONS AUTOMATIC TAGS ::= BEGIN N ::= NumericString (FROM("0".."3"|" ")) END', "type": "N", "op": "enc uper (os 3320)",
             "options_a": list(BASE), "options_b": list(BASE) + [NOCONS], "expect_a": "ok 0280", "expect_b": "ok 0260"},
     "F76": {"module": "W DEFINITIONS AUTOMATIC TAGS ::= BEGIN T ::= SET { i INTEGER, e ENUMERATED { m, n } DEFAULT m } END", "type": "T",
-            "op": "enc cxer (set (i (int 1)))", "options_a": list(BASE), "options_b": list(BASE) + [WIDE],
-            "expect_a": "ok 3c543e3c693e313c2f693e3c653e3c6d2f3e3c2f653e3c2f543e", "expect_b": "ok 3c543e3c693e313c2f693e3c2f543e"},
+            "op": "enc xer (set (i (int 1)))", "options_a": list(BASE), "options_b": list(BASE) + [WIDE],
+            "expect_a": "ok " + b"<T>\n    <i>1</i>\n    <e><m/></e>\n</T>\n".hex(), "expect_b": "ok " + b"<T>\n    <i>1</i>\n</T>\n".hex()},
     "F77": {"module": "W DEFINITIONS ::= BEGIN S ::= SEQUENCE { a [5] EXPLICIT INTEGER (0..MAX) } END", "type": "S", "op": "enc der (seq (a (int 1)))",
             "options_a": list(BASE), "options_b": list(BASE) + [WIDE], "expect_a": "ok 3007a505a503020101", "expect_b": "ok 3005a503020101"},
 }
